@@ -55,6 +55,7 @@ func profileFor(prop string) Profile {
 		// value order inside equality sets and key order inside target lists are two of the perturbation families
 		p.Ops = append(append([]string{}, allOps...), "in", "in", "in")
 		p.PTargets, p.PCtxTargets, p.PZeroAge = 0.4, 0.3, 0.15
+		p.PLegacy, p.PSecondaryOpt, p.PRollout = 0.4, 0.7, 0.5 // the legacy secondary key belongs to the user, whatever else is in the context
 	case "C14":
 		p.PDocNoise = 0.1
 		// what the preprocessor touches: equality sets, regex / date / semver operands, target and segment key lists
